@@ -26,7 +26,7 @@ ASSUME TLCSet(3, <<>>)
 Mark(r, p) == LET f == TLCGet(3) IN
   TLCSet(3, IF r \in DOMAIN f /\ f[r] >= p THEN f ELSE (r :> p) @@ f)
 
-Ignored == {"CNewStreamCall", "CNewStreamRet", "HStart", "Quiesce", "Winddown", "Census", "HCtxWait", "Panic",
+Ignored == {"CNewStreamCall", "CNewStreamRet", "HStart", "Quiesce", "Winddown", "Census", "CensusT", "HCtxWait", "Panic",
             "HSetHeaderCall", "HSendHeaderCall"}
 
 \* error categories a logged result is compatible with
